@@ -5,7 +5,7 @@ from vf.common import Harness, REPO
 LEVEL = "model_checking"
 TECHNIQUE = ("CBMC bounded symbolic execution of the regex VM one instruction at a time from an arbitrary reachable state: the opcode dispatch of "
              "re.c yr_re_exec (cut mechanically out of the function each run, like the bison actions) for every matching/anchor opcode, "
-             "_yr_re_fiber_sync for every control opcode, _yr_re_fiber_exists; reference = regex semantics of the single instruction")
+             "_yr_re_fiber_sync for the split and jump instructions, _yr_re_fiber_exists; reference = regex semantics of the single instruction")
 ASSUMPTIONS = [
     "whole-program symbolic execution of yr_re_exec is intractable (DESIGN P7/P11); the claim is PER INSTRUCTION: every opcode is exact from any state "
     "satisfying the stated loop invariant (0 <= bytes_matched <= max_bytes_matched, multiple of the character size, input = start + k*step); "
@@ -13,10 +13,12 @@ ASSUMPTIONS = [
     "regex text -> AST -> code (re_lexer.l, re_grammar.y, _yr_re_emit) and atom choice for regexps are outside; `matches` is covered only in so far as it runs the same instructions",
     "data window <= 8 bytes around the match start, YR_RE_SCAN_LIMIT scaled to 6 through its own #ifndef so that the per-match window bound binds; RE_MAX_STACK=4, RE_MAX_SPLIT_ID=8",
     "the switch body and the prologue of yr_re_exec are cut by text markers (`switch (*ip)` ... matching brace; `if (flags & RE_FLAGS_WIDE)` ... `bytes_matched = 0;`); a refactoring that removes the markers makes the check exit 2 (broken), not 1",
+    "the control side of counted repeats (REPEAT_START/END/ANY in _yr_re_fiber_sync: no verdict in 300 s) and the empty-loop cut of a split re-entering itself are NOT decided; "
+    "the matching side of REPEAT_ANY is (H1)",
     "backwards execution is only entered with at least one byte to the right of the start (the atom occurrence), as scan.c does",
 ]
 LEVEL_TEXT = ("Bounded model checking of one VM instruction from an arbitrary state (inductive step): byte predicates, anchors, word boundaries, "
-              "window bound and wide/backwards/nocase/dotall handling of every matching opcode, successor sets and priority order of every control opcode.")
+              "window bound and wide/backwards/nocase/dotall handling of every matching opcode, successor sets and priority order of splits and jumps; fiber de-duplication.")
 LEVEL_NOTE = "; ".join(ASSUMPTIONS)
 
 
@@ -74,8 +76,9 @@ def gen_step(ctx, outdir):
 CONSUMING = ["ANY", "REPEAT_ANY_GREEDY", "REPEAT_ANY_UNGREEDY", "LITERAL", "NOT_LITERAL", "MASKED_LITERAL", "MASKED_NOT_LITERAL", "CLASS",
              "WORD_CHAR", "NON_WORD_CHAR", "SPACE", "NON_SPACE", "DIGIT", "NON_DIGIT"]
 ZEROW = ["WORD_BOUNDARY", "NON_WORD_BOUNDARY", "MATCH_AT_START", "MATCH_AT_END", "MATCH"]
-CONTROL = ["SPLIT_A", "SPLIT_B", "JUMP", "REPEAT_START_GREEDY", "REPEAT_START_UNGREEDY", "REPEAT_END_GREEDY", "REPEAT_END_UNGREEDY",
-           "REPEAT_ANY_GREEDY", "REPEAT_ANY_UNGREEDY"]
+# the counted-repeat control instructions (REPEAT_START/END/ANY in _yr_re_fiber_sync) and a split re-entering itself give no verdict in
+# 300 s even with concrete targets and stack depth; the harness (c03/re_sync.c) contains their reference semantics but they are not registered
+CONTROL = ["SPLIT_A", "SPLIT_B", "JUMP"]
 SCALE = ["-D__NO_CTYPE=1", "-DYR_RE_SCAN_LIMIT=6", "-DRE_MAX_STACK=4", "-DRE_MAX_SPLIT_ID=8", "-DRE_MAX_FIBERS=8"]
 
 
@@ -92,8 +95,11 @@ def harnesses(ctx, tier):
     for op in CONTROL:
         tgts = [8, 3, 14] if op.startswith("SPLIT") else [3, 14] if op == "JUMP" else [20, 2] if "START" in op else [2, 20] if "END" in op else [0]
         for tg in tgts:
-            hs.append(Harness(name="H2_sync_%s_t%d" % (op, tg), src="c03/re_sync.c", defines=SCALE + ["-DVF_OP=RE_OPCODE_" + op, "-DVF_OP_" + op + "=1", "-DVF_TGT=%d" % tg],
-                              unwind=8, timeout=300, mem_gb=12, unwind_funcs={"main": 34},
+            if tg == 8:
+                continue  # split re-entering itself: no verdict in 300 s (see DESIGN 9.2)
+            extra = ["-DVF_SP=1"] if "REPEAT" in op else []
+            hs.append(Harness(name="H2_sync_%s_t%d" % (op, tg), src="c03/re_sync.c", defines=SCALE + extra + ["-DVF_OP=RE_OPCODE_" + op, "-DVF_OP_" + op + "=1", "-DVF_TGT=%d" % tg, "-DVF_NEIGH=3"],
+                              unwind=6, timeout=300, mem_gb=12, unwind_funcs={"fill_code": 34, "rec:_yr_re_fiber_sync": 2},
                               desc="_yr_re_fiber_sync on a fiber standing at RE_OPCODE_%s (target offset %d): successor fibers, their order in the list (priority), stacks, repeat counters, pool accounting" % (op, tg),
                               bounds="fiber stack depth <= 3, repeat min/max <= 3..4 symbolic, optional neighbour fibers before/after, jump/split target enumerated",
                               functions=["_yr_re_fiber_sync", "_yr_re_fiber_split", "_yr_re_fiber_kill", "_yr_re_fiber_create"],
